@@ -100,7 +100,7 @@ Definition empty_h : hstate := mkH [] [] None.
 Inductive err := EInput (* HTTPInputError *) | EKey (* KeyError *) | EIndex (* IndexError *).
 Inductive res :=
 | RUnit | RErr (e : err) | RText (t : text) | RBool (b : bool)
-| RList (l : list text) | RPairs (l : list (text * text)) | RBadTarget.
+| RList (l : list text) | RPairs (l : list (text * text)) | RBadTarget | RNat (n : nat).
 
 (* __setitem__ : no validation, does not touch _last_key *)
 Definition set_item (n v : text) (h : hstate) : hstate :=
@@ -244,10 +244,56 @@ Fixpoint add_all (ps : list (text * text)) (h : hstate) : res * hstate :=
 (* HTTPHeaders(other) / copy() *)
 Definition copy (h : hstate) : res * hstate := add_all (get_all h) empty_h.
 
+(* ---------- collections.abc.MutableMapping mixins (they reach the class only through
+   __getitem__ / __setitem__ / __delitem__ / __iter__ / __len__) ---------- *)
+(* Mapping.get(key): try: return self[key]  except KeyError: return None *)
+Definition get_default (n : text) (h : hstate) : res * hstate :=
+  let '(r, h') := get_item n h in
+  (match r with RErr EKey => RUnit | _ => r end, h').
+(* MutableMapping.pop(key): value = self[key]; del self[key]; return value *)
+Definition pop_item (n : text) (h : hstate) : res * hstate :=
+  let '(r, h1) := get_item n h in
+  match r with
+  | RText v => match del_item n h1 with
+               | (RUnit, h2) => (RText v, h2)
+               | (e, h2) => (e, h2)
+               end
+  | _ => (r, h1)
+  end.
+(* MutableMapping.setdefault(key, default): try: return self[key]  except KeyError: self[key] = default *)
+Definition set_default (n v : text) (h : hstate) : res * hstate :=
+  let '(r, h1) := get_item n h in
+  match r with
+  | RErr EKey => (RText v, set_item n v h1)
+  | _ => (r, h1)
+  end.
+(* list(h.items()): for key in iter(self): yield (key, self[key])   -- every read fills the cache *)
+Fixpoint items_go (ks : list text) (acc : list (text * text)) (h : hstate) : res * hstate :=
+  match ks with
+  | [] => (RPairs (rev acc), h)
+  | k :: ks' => match get_item k h with
+                | (RText v, h') => items_go ks' ((k, v) :: acc) h'
+                | (r, h') => (r, h')
+                end
+  end.
+Definition items (h : hstate) : res * hstate := items_go (keys h) [] h.
+(* MutableMapping.update(pairs) / the dict-style constructor: self[k] = v for each pair *)
+Definition update_all (l : list (text * text)) (h : hstate) : hstate :=
+  fold_left (fun h kv => set_item (fst kv) (snd kv) h) l h.
+(* dict(a) == dict(b) for lists of (key, value) pairs: later duplicates win, order is irrelevant *)
+Definition dict_of (l : list (text * text)) : list (text * text) :=
+  fold_left (fun d kv => d_set (fst kv) (snd kv) d) l [].
+Definition dict_sub (a b : list (text * text)) : bool :=
+  forallb (fun kv => match d_get (fst kv) b with Some v => text_eqb v (snd kv) | None => false end) a.
+Definition dict_eqb (a b : list (text * text)) : bool :=
+  let da := dict_of a in let db := dict_of b in
+  Nat.eqb (length da) (length db) && dict_sub da db.
+
 (* ---------- operations on one object ---------- *)
 Inductive op :=
 | Add (n v : text) | SetItem (n v : text) | DelItem (n : text) | GetItem (n : text)
-| GetList (n : text) | Contains (n : text) | Keys | GetAll | ParseLine (l : text) | ToString.
+| GetList (n : text) | Contains (n : text) | Keys | GetAll | ParseLine (l : text) | ToString
+| GetD (n : text) | Pop (n : text) | SetDefault (n v : text) | Items | Len | Update (l : list (text * text)).
 
 Definition step (o : op) (h : hstate) : res * hstate :=
   match o with
@@ -261,6 +307,12 @@ Definition step (o : op) (h : hstate) : res * hstate :=
   | GetAll => (RPairs (get_all h), h)
   | ParseLine l => parse_line l h
   | ToString => (RText (to_string h), h)
+  | GetD n => get_default n h
+  | Pop n => pop_item n h
+  | SetDefault n v => set_default n v h
+  | Items => items h
+  | Len => (RNat (length (as_list h)), h)
+  | Update l => (RUnit, update_all l h)
   end.
 
 (* ---------- programs over several objects (object 0 = HTTPHeaders()) ---------- *)
@@ -268,7 +320,9 @@ Inductive cmd :=
 | On (i : nat) (o : op)        (* operation on object i *)
 | Copy (i : nat)               (* objs.append(objs[i].copy()) *)
 | Parse (t : text)             (* objs.append(HTTPHeaders.parse(t)) *)
-| Reparse (i : nat).           (* objs.append(HTTPHeaders.parse(str(objs[i]))) *)
+| Reparse (i : nat)            (* objs.append(HTTPHeaders.parse(str(objs[i]))) *)
+| FromPairs (l : list (text * text))   (* objs.append(HTTPHeaders(list_of_pairs or dict)) *)
+| Eq (i j : nat).              (* objs[i] == objs[j]   (Mapping.__eq__: dict(a.items()) == dict(b.items())) *)
 
 Fixpoint upd {A} (i : nat) (x : A) (l : list A) : list A :=
   match l, i with
@@ -298,6 +352,25 @@ Definition run_cmd (c : cmd) (st : list hstate) : res * list hstate :=
                  | None => (RBadTarget, st)
                  | Some h => new_obj st (parse (to_string h))
                  end
+  | FromPairs l => new_obj st (RUnit, update_all l empty_h)
+  | Eq i j =>
+      match nth_error st i, nth_error st j with
+      | Some hi, Some _ =>
+          match items hi with
+          | (RPairs a, hi') =>
+              let st1 := upd i hi' st in
+              match nth_error st1 j with
+              | None => (RBadTarget, st1)
+              | Some hj =>
+                  match items hj with
+                  | (RPairs b, hj') => (RBool (dict_eqb a b), upd j hj' st1)
+                  | (r, hj') => (r, upd j hj' st1)
+                  end
+              end
+          | (r, hi') => (r, upd i hi' st)
+          end
+      | _, _ => (RBadTarget, st)
+      end
   end.
 
 Fixpoint run_cmds (cs : list cmd) (st : list hstate) : list res * list hstate :=
